@@ -61,7 +61,9 @@ def run(ctx) -> None:
     ok = len(ins) == 1 and src(ins[0].value) == "graph.inputs.all"
     rep.add("C05.R3", f"{gn.qname}:inputs", ok, init.loc(), "wrapper inputs = inner graph.inputs.all" if ok else "wrapper inputs are not the inner graph's inputs.all")
     outs = [n for n in walk_local(init.node) if isinstance(n, ast.Assign) and any(src(t) == "self.outputs" for t in n.targets)]
-    ok = len(outs) == 1 and _exposes_selection_else_all(db, init, outs[0].value)
+    from .common import wrapper_outputs_expose_selection
+
+    ok = wrapper_outputs_expose_selection(db, init, outs)
     rep.add("C05.R3", f"{gn.qname}:outputs", ok, init.loc(), "wrapper outputs = inner selection if set, else all inner outputs" if ok else "wrapper outputs are not 'graph.selected if set else graph.outputs'")
     # ... and the nested run is left to that default: the executors of a graph node pass no selection of their own
     # (a "**" there hands every inner output, selected or not, to the enclosing state under its inner name)
@@ -132,6 +134,7 @@ GN = "src/hypergraph/nodes/graph_node.py"
 SG = "src/hypergraph/runners/sync/executors/graph_node.py"
 HP = "src/hypergraph/runners/_shared/helpers.py"
 VARIANTS = [
+    Variant("twin-wrapper-outputs-as-two-branches", GN, replace_once("        exposed = graph.selected if graph.selected is not None else graph.outputs\n        emit_only = graph._get_emit_only_outputs()\n        self.outputs = tuple(o for o in exposed if o not in emit_only)\n", "        emit_only = graph._get_emit_only_outputs()\n        if graph.selected is not None:\n            self.outputs = tuple(o for o in graph.selected if o not in emit_only)\n        else:\n            self.outputs = tuple(o for o in graph.outputs if o not in emit_only)\n"), set()),
     Variant("nested-run-selects-everything", SG, replace_once("            inner_inputs,\n            event_processors=event_processors,\n            _parent_span_id=parent_span_id,\n        )\n        return node.map_outputs_from_original(result.values)", "            inner_inputs,\n            select=\"**\",\n            event_processors=event_processors,\n            _parent_span_id=parent_span_id,\n        )\n        return node.map_outputs_from_original(result.values)"), {"C05.R3"}),
     Variant("wrapper-inputs-required-only", GN, replace_once("        self.inputs = graph.inputs.all", "        self.inputs = graph.inputs.required"), {"C05.R3"}),
     Variant("wrapper-outputs-ignore-selection", GN, replace_once("        exposed = graph.selected if graph.selected is not None else graph.outputs", "        exposed = graph.outputs"), {"C05.R3"}),
